@@ -205,6 +205,130 @@ def build_requests(ctx, sess):
 # the tie
 # ------------------------------------------------------------------------------------------------------------
 
+# ------------------------------------------------------------------------------------------------------------
+# round 2: addresses
+# ------------------------------------------------------------------------------------------------------------
+
+ADDR_WORDS = re.compile(r"\b(psrc|pdst)\b|\bsrc\s*!=\s*dst\b")
+
+
+def scan_addr_asserts(ctx, genc, target, disagree):
+    """Structural: the NUNAVUT_ASSERTs of the generated nunavutCopyBits that talk about addresses, in order, against
+    the texts the model's `copyAsserts` stands for (driver op `addrasserts`)."""
+    h = target.outdir / "gen" / "nunavut" / "support" / "serialization.h"
+    try:
+        txt = h.read_text()
+        m0 = re.search(r"^static inline void nunavutCopyBits\(", txt, re.M)
+        end = txt.find("\n}\n", m0.end()) if m0 else -1
+        body = txt[m0.end():end] if m0 and end >= 0 else None
+    except Exception:  # noqa: BLE001
+        body = None
+    if body is None:
+        disagree("genc-assert-text", {"target": target.name}, "nunavutCopyBits", "not found in serialization.h")
+        return 0
+    text = body if isinstance(body, str) else "\n".join(body)
+    real = []
+    for m in re.finditer(r"NUNAVUT_ASSERT\((.*)\);", text):
+        e = " ".join(m.group(1).split())
+        if ADDR_WORDS.search(e):
+            real.append(e)
+    answers = genc.ask(["@any addrasserts", "@any,hg addrasserts"])
+    models = [[x.strip() for x in a[3:].split(";;")] if a.startswith("ok ") else [a] for a in answers]
+    ctx.traces += 1
+    ctx.count("genc:assert-text:" + target.name)
+    if real not in models:
+        disagree("genc-assert-text", {"target": target.name}, " ;; ".join(models[0]), " ;; ".join(real))
+    return {"assertions": len(real), "head_guarded": real == models[1]}
+
+
+def stack_probe(ctx, genc, target, sess, disagree, head_guarded, limit=40):
+    """The finding of 443d39c lived in the placement the compiler chose: a short stack buffer next to the primitive's
+    local.  Compile (gcc and clang, -O2, assertions on) one small noinline function per type and shape that decodes
+    from a 1-byte stack array (size 1, size 0, and the end pointer with size 0) and calls T_initialize_-free decode;
+    an abort is a failing input; the return code is compared with the model's answer under `place=above,hg`."""
+    import subprocess
+    types = [gt for gt in sess.ns.types][:limit]
+    if not types:
+        return {}
+    src = ['#include <stdio.h>', '#include <stdlib.h>', '#include <stdint.h>', '#include <stddef.h>', '#include <assert.h>']
+    for gt in types:
+        src.append(f'#include "{T._header_path(gt.model, ".h")}"')
+    shapes = [("b1", "uint8_t buf[1] = {0x55};", "buf", 1), ("b0", "uint8_t buf[1] = {0x55};", "buf", 0),
+              ("end0", "uint8_t buf[1] = {0x55};", "buf + 1", 0)]
+    calls = []
+    for i, gt in enumerate(types):
+        cn = T.c_name(gt.model)
+        for tag, decl, ptr, size in shapes:
+            fn = f"probe_{i}_{tag}"
+            src.append(f"__attribute__((noinline)) static int {fn}(void) {{ {decl} {cn} obj; size_t sz = {size}U; "
+                       f"return (int) {cn}_deserialize_(&obj, {ptr}, &sz); }}")
+            calls.append((fn, gt, tag, size))
+    src.append("int main(int argc, char** argv) { const int start = (argc > 1) ? atoi(argv[1]) : 0;")
+    for j, (fn, gt, tag, size) in enumerate(calls):
+        src.append(f'    if ({j} >= start) {{ printf("{fn} %d\\n", {fn}()); fflush(stdout); }}')
+    src.append("    return 0; }")
+    d = target.outdir / "stack_probe"
+    d.mkdir(parents=True, exist_ok=True)
+    (d / "probe.c").write_text("\n".join(src) + "\n")
+    e = "little" if target.endianness == "little" else "any"
+    # the model under the placement "every other object directly above the buffer", with the head assertion as emitted
+    mopt = f"@{e},asserts,place=above" + (",hg" if head_guarded else "")
+    model = genc.ask([f"{mopt} de {gt.tstr} {'55' if size else '-'}" for fn, gt, tag, size in calls])
+    plain = genc.ask([f"@{e},asserts de {gt.tstr} {'55' if size else '-'}" for fn, gt, tag, size in calls])
+    out = {}
+    for cc in ("gcc", "clang"):
+        for opt in ("-O2", "-O0"):
+            exe = d / f"probe_{cc}{opt}"
+            cmd = [cc, "-std=c11", opt, "-DNUNAVUT_ASSERT(x)=assert(x)", "-Wno-unused-function", "-I", str(target.outdir / "gen"),
+                   str(d / "probe.c"), "-o", str(exe), "-lm"]
+            ok, log = T._compile(cmd, timeout=600)
+            if not ok:
+                ctx.count("genc:stack-probe-compile-failed")
+                out[cc + opt] = "compile failed: " + log[-300:]
+                continue
+            got, deaths, start = {}, [], 0
+            for _round in range(len(calls) + 1):
+                try:
+                    p = subprocess.run([str(exe), str(start)], capture_output=True, text=True, timeout=120)
+                    rc, lines, err = p.returncode, p.stdout.split("\n"), p.stderr
+                except subprocess.TimeoutExpired:
+                    rc, lines, err = -999, [], "timeout"
+                for ln in lines:
+                    if len(ln.split()) == 2:
+                        got[ln.split()[0]] = int(ln.split()[1])
+                if rc == 0:
+                    break
+                k = next((j for j in range(start, len(calls)) if calls[j][0] not in got), len(calls))
+                if k >= len(calls):
+                    break
+                deaths.append((k, rc, err))
+                start = k + 1
+            died = {k for k, _, _ in deaths}
+            for k, rc_k, err in deaths:
+                fn, gt, tag, size = calls[k]
+                ctx.traces += 1
+                if model[k] == "err:assert" and "src != dst" in err and not head_guarded:
+                    # the model with the emitted (unguarded) `src != dst` predicts exactly this abort for an object that
+                    # starts at the end pointer: agreement; reported as a finding by the builder (agent_out/GENC)
+                    ctx.count("genc:stack-probe-srcdst-abort-predicted")
+                    continue
+                disagree("genc-vs-c-stack", {"type": gt.tstr, "shape": tag, "cc": cc + opt, "target": target.name,
+                                            "name": gt.full_name}, model[k][:300], f"process died rc={rc_k}: {err[-300:]}")
+                ctx.fail({"kind": "c-assertion-abort", "where": "stack-buffer"},
+                         f"{T.c_name(gt.model)}_deserialize_ from a {size}-byte stack buffer ({tag}) aborts: {err[-200:]}",
+                         {"type": gt.tstr, "shape": tag, "cc": cc + opt})
+            for k, ((fn, gt, tag, size), m) in enumerate(zip(calls, plain)):
+                if k in died or fn not in got:
+                    continue
+                ctx.traces += 1
+                ctx.count("genc:stack-probe:" + target.name)
+                if (got[fn] < 0) != m.startswith("err"):
+                    disagree("genc-vs-c-stack", {"type": gt.tstr, "shape": tag, "cc": cc + opt, "target": target.name}, m[:300], str(got[fn]))
+            rc = len(deaths)
+            out[cc + opt] = f"{len(got)}/{len(calls)} calls returned, {rc} aborted (all predicted by the model: {rc == 0 or not head_guarded})"
+    return out
+
+
 def _opt_of(target):
     return ("@little" if target.endianness == "little" else "@any") + (",asserts" if target.asserts else "")
 
@@ -236,12 +360,45 @@ def run_genc(ctx, drivers, sess=None):
     # assertions on; all asked concurrently (each is its own driver process)
     variants = sorted({_opt_of(t) for t in ctargets} | {"@any", "@little"})
     variants = [v + ",fill=165" for v in variants] + ["@any,asserts,orc=never", "@little,asserts,orc=never"]
+    # round 2 (Model/GenCX.lean): the address assertions of nunavutCopyBits under three placements of the primitives'
+    # locals / the member arrays: directly below the buffer, far away, directly above it.  `place=above` with the
+    # emitted (unguarded) `src != dst` is asked separately: there the model may answer err:assert exactly when a
+    # nested call got the end pointer of the buffer and copies zero bits (hypothesis NoAliasPastEnd of the theorem).
+    ends = sorted({("little" if t.endianness == "little" else "any") for t in ctargets if t.asserts}) or ["any"]
+    place_variants = [f"@{e},asserts,place={pl}" for e in ends for pl in ("below", "far", "above,hg")]
+    alias_variants = [f"@{e},asserts,place=above" for e in ends]
+    variants = variants + place_variants  # (asked over a bounded subset of the requests, see below)
     import concurrent.futures
     with concurrent.futures.ThreadPoolExecutor(max_workers=len(variants) + len(ctargets)) as ex:
         fc = {t.name: ex.submit(t.ask, lines) for t in ctargets}
-        fg = {v: ex.submit(genc.ask, [f"{v} {ml}" for ml in mlines], 1800) for v in variants}
+        small = [i for i, ml in enumerate(mlines) if len(ml) <= 500]
+        budget = 1200 if ctx.tier == "quick" else 20000
+        stride = max(1, len(small) // budget)
+        sub = small[::stride]
+        fg = {v: ex.submit(genc.ask, [f"{v} {ml}" for ml in mlines], 1800) for v in variants if v not in place_variants}
+        fp = {v: ex.submit(genc.ask, [f"{v} {mlines[i]}" for i in sub], 1800) for v in place_variants + alias_variants}
         answers_c = {k: f.result() for k, f in fc.items()}
         answers_g = {k.replace(",fill=165", ""): f.result() for k, f in fg.items()}
+        answers_p = {k: f.result() for k, f in fp.items()}
+    # emitted `src != dst`, everything directly above the buffer: same answer as the plain model, or err:assert on a
+    # decode request (counted, reported in the summary; never seen on the compiled code: see stack_probe)
+    n_alias = 0
+    for v, ans_sub in answers_p.items():
+        pv = v.split(",place=")[0]
+        plain = answers_g[pv] if pv in answers_g else answers_g["@any"]
+        ans = dict(zip(sub, ans_sub))
+        for i in sub:
+            r = reqs[i]
+            ctx.traces += 1
+            ctx.count("genc:placement:" + v.split("place=")[1])
+            if ans[i] == plain[i]:
+                continue
+            if v in alias_variants and ans[i] == "err:assert" and r.op == "de":
+                n_alias += 1
+                ctx.count("genc:srcdst-alias-at-end-pointer")
+                continue
+            disagree("genc-placement", {"type": r.gt.tstr, "op": r.op, "arg": r.text[:2000], "options": v}, plain[i][:1500], ans[i][:1500])
+    summary["srcdst_alias_requests"] = n_alias
     answers_s = codec.ask(mlines, timeout=1800) if codec is not None else None
     for i, r in enumerate(reqs):
         e = r.gt.expr
@@ -295,6 +452,11 @@ def run_genc(ctx, drivers, sess=None):
                     disagree("genc-structure", {"type": gt.tstr, "target": t.name, "dir": direction, "name": gt.full_name},
                              " ".join(model)[:1500], " ".join(real)[:1500])
     summary["structural_comparisons"] = n_struct
+    for t in ctargets:
+        if t.asserts:
+            sc = scan_addr_asserts(ctx, genc, t, disagree)
+            summary.setdefault("assert_text", {})[t.name] = sc
+            summary.setdefault("stack_probe", {})[t.name] = stack_probe(ctx, genc, t, sess, disagree, bool(sc and sc.get("head_guarded")))
     summary["differences"] = n_dis[0]
     summary["seconds"] = round(time.time() - t0, 2)
     ctx.extra["genc_tie"] = summary
